@@ -156,6 +156,10 @@ func (s *server) Unary(ctx context.Context, req *tp.UnaryRequest) (*tp.UnaryResp
 	sc := s.script()
 	s.saw(req.Msg)
 	s.meta(ctx, sc, nil)
+	if sc.Quirk == "watch-context" {
+		// work tied to the call: it ends when the call's context does, and that ends with the call
+		go func() { <-ctx.Done() }()
+	}
 	if err := sc.finalErr(); err != nil {
 		return nil, err
 	}
@@ -314,6 +318,9 @@ func runClient(c tp.TestApiClient, sc script, mkCtx func(deadline bool) (context
 			stop(0)
 		}
 		req := &tp.UnaryRequest{Msg: "ping"}
+		if sc.Quirk == "watch-context" {
+			ctx = context.Background() // a caller whose own context never ends: the CALL's context still does
+		}
 		resp, err := c.Unary(ctx, req, grpc.Header(&h), grpc.Trailer(&t))
 		req.Msg = "scribbled"
 		tr = append(tr, "resp="+resp.GetMsg(), "err="+outcome(err))
@@ -588,6 +595,9 @@ func scripts(thorough bool) []script {
 		out = append(out, script{Shape: shape, HeaderMode: "set", Trailer: true, N: 1, Final: "eof-error", ErrAfter: -1, Client: "normal"})
 	}
 	for _, f := range []string{"ok", "status"} {
+		out = append(out, script{Shape: "unary", HeaderMode: "none", N: 1, Final: f, ErrAfter: -1, Client: "normal", Quirk: "watch-context"})
+	}
+	for _, f := range []string{"ok", "status"} {
 		out = append(out, script{Shape: "sstream", HeaderMode: "none", N: 1, Final: f, ErrAfter: -1, Client: "cancel", ClientAt: 1, Quirk: "own-status-after-cancel"})
 	}
 	for _, shape := range []string{"unary", "sstream", "cstream", "bidi"} {
@@ -629,6 +639,10 @@ func shapes(s *hx.Seq) {
 		{"client-stream-as-server-stream", "/sc.go.test.TestApi/ClientStream", &grpc.StreamDesc{ServerStreams: true}, codes.Internal},
 		{"bidi-as-server-stream", "/sc.go.test.TestApi/BidiStream", &grpc.StreamDesc{ServerStreams: true}, codes.Internal},
 		{"unary-as-server-stream", "/sc.go.test.TestApi/Unary", &grpc.StreamDesc{ServerStreams: true}, codes.Internal},
+		// the other direction: a streaming method called as a unary one (Invoke) is a mismatched shape too
+		{"server-stream-as-unary", "/sc.go.test.TestApi/ServerStream", nil, codes.Internal},
+		{"bidi-as-unary", "/sc.go.test.TestApi/BidiStream", nil, codes.Internal},
+		{"client-stream-as-unary", "/sc.go.test.TestApi/ClientStream", nil, codes.Internal},
 	} {
 		s.Eval(1)
 		s.Trans(1)
